@@ -134,6 +134,12 @@ def _mk(kind, seed, aq="qint8", wq="qint8"):
     with torch.no_grad():
         for p in m.parameters():
             p.copy_(torch.randn(p.shape, generator=g) * 0.4)
+    if kind == "frozen-half":
+        # a float16 model with quantized WEIGHTS only, frozen: what a memory-bound inference deployment looks like
+        m = m.to(torch.float16)
+        quantize(m, weights=O.QTALL[["qint8", "qfloat8_e4m3fn", "qint4"][seed % 3]])
+        freeze(m)
+        return m
     quantize(m, weights=O.QTALL[wq], activations=O.QT8[aq])
     if kind in ("calibrated", "frozen"):
         with torch.no_grad(), Calibration(streamline=False):
@@ -176,7 +182,7 @@ class World:
         """prep: how the user set the model up for inference — 0 as built, 1 .eval(), 2 requires_grad_(False), 3 both"""
         if (kind, prep) not in self.models:
             # models are built outside any calibration context of the history: building is not the subject
-            m = _mk(kind, {"calibrated": 1, "frozen": 2, "unfrozen": 3}[kind])
+            m = _mk(kind, {"calibrated": 1, "frozen": 2, "unfrozen": 3, "frozen-half": 4 + prep}[kind])
             if prep & 1:
                 m.eval()
             if prep & 2:
@@ -243,6 +249,8 @@ class World:
             m = self.model(step["model"], prep)
             g = torch.Generator().manual_seed(step.get("seed", 0))
             x = torch.randn(3, 6, generator=g) * [1.0, 5.0, 0.1][step.get("seed", 0) % 3]
+            if step["model"] == "frozen-half":
+                x = x.to(torch.float16)
             if self.stack:
                 with torch.no_grad():
                     cut(m, x)  # inside a context anything may be calibrated; only the global invariants are checked
@@ -439,7 +447,7 @@ def make_machine(hook):
         def exit_by_exception(self, exc, where, n):
             self.do({"op": "exit_exc", "exc": exc, "where": where, "n": n})
 
-        @rule(model=st.sampled_from(["calibrated", "frozen", "unfrozen"]), seed=st.integers(0, 50))
+        @rule(model=st.sampled_from(["calibrated", "frozen", "unfrozen", "frozen-half"]), seed=st.integers(0, 50))
         def forward(self, model, seed):
             self.do({"op": "forward", "model": model, "seed": seed})
 
